@@ -47,7 +47,10 @@ ATTRS = SS.ALL_ATTRS
 
 def budget(tier):
     if tier == "thorough":
-        return {"n": 200000, "wall_s": 1500, "workers": 16, "selftest": 24}
+        # real-thread cross-check in fresh processes per threading layer / thread-pool size (DESIGN 5, C14)
+        return {"n": 200000, "wall_s": 1500, "workers": 16, "selftest": 24,
+                "env_variants": [{}, {"NUMBA_THREADING_LAYER": "omp"}, {"NUMBA_NUM_THREADS": "5"},
+                                 {"NUMBA_THREADING_LAYER": "omp", "NUMBA_NUM_THREADS": "7"}]}
     return {"n": 1600, "wall_s": 80, "workers": 16, "selftest": 4}
 
 
